@@ -62,6 +62,8 @@ struct World {
     ids: HashMap<[u8; 16], u32>,
     sent: Vec<(u32, u32, Vec<u8>)>, // (src node, dst port, bytes)
     queue: VecDeque<usize>,
+    alias: Vec<(u32, u32)>, // node -> public address of its port-forwarding router (no hair-pinning)
+    muted: Vec<u32>,        // nodes whose datagrams are currently lost on the way out
 }
 
 impl World {
@@ -77,13 +79,30 @@ impl World {
         let mut toks = vec![];
         for (dst, data) in out {
             toks.push(format!("{}:{}", dst.port(), kind_of(&data)));
-            self.queue.push_back(self.sent.len());
+            if !self.muted.contains(&i) {
+                self.queue.push_back(self.sent.len());
+            }
             self.sent.push((i, dst.port() as u32, data));
         }
         if toks.is_empty() {
             "-".into()
         } else {
             toks.join(",")
+        }
+    }
+
+    /// where a datagram of node `from` addressed to `dst` ends up: (receiving node, source address it sees)
+    fn route(&self, from: u32, dst: u32) -> Option<(u32, u32)> {
+        let seen = self.alias.iter().find(|e| e.0 == from).map(|e| e.1).unwrap_or(from);
+        match self.alias.iter().find(|e| e.1 == dst) {
+            Some(e) => {
+                if e.0 == from {
+                    None
+                } else {
+                    Some((e.0, seen))
+                }
+            }
+            None => Some((dst, seen)),
         }
     }
 
@@ -111,7 +130,7 @@ fn node_scenario(a: &[&str]) -> String {
     crate::crypto::verif_init::clear_salts();
     MockTimeSource::set_time(1);
     MockSocket::set_nat(false);
-    let mut w = World { nodes: HashMap::new(), ids: HashMap::new(), sent: vec![], queue: VecDeque::new() };
+    let mut w = World { nodes: HashMap::new(), ids: HashMap::new(), sent: vec![], queue: VecDeque::new(), alias: vec![], muted: vec![] };
     let mut out: Vec<String> = vec![];
     for tok in a {
         let p: Vec<&str> = tok.split('.').collect();
@@ -141,25 +160,28 @@ fn node_scenario(a: &[&str]) -> String {
                     c.auto_claim = false;
                     c.port_forwarding = false;
                     c.listen = format!("[::]:{}", i);
-                    c.crypto.password = Some("x".into());
+                    // keys go through Crypto::new (configured as printed base-62 text): private key = the key pair's
+                    // seed, trusted keys = the listed public keys, none listed = the node trusts its own key only
                     c.crypto.algorithms = vec!["plain".into()];
                     let key: u8 = num(p[7]);
                     let trusted: Vec<Vec<u8>> =
                         if p[8] == "-" { vec![] } else { p[8].split('+').map(|k| hcm::seed_public_key(&key_seed(num(k)))).collect() };
+                    c.crypto.private_key = Some(crate::util::to_base62(&key_seed(key)));
+                    c.crypto.trusted_keys = trusted.iter().map(|k| crate::util::to_base62(k)).collect();
                     let (plain, speeds) = parse_algos(p[9]);
                     MockSocket::set_nat(p.len() > 10 && p[10] == "nat");
                     let node = match dt {
                         Type::Tap => {
                             let mut n = TapNode::new(&c, MockSocket::new(addr_of(i)), MockDevice::new(), None, None);
                             let id = n.v_node_id();
-                            n.v_replace_crypto(hcm::crypto_with(id, &key_seed(key), &trusted, &speeds, plain));
+                            n.v_set_algorithms(&speeds, plain);
                             w.ids.insert(id, i);
                             AnyNode::Tap(n)
                         }
                         Type::Tun => {
                             let mut n = TunNode::new(&c, MockSocket::new(addr_of(i)), MockDevice::new(), None, None);
                             let id = n.v_node_id();
-                            n.v_replace_crypto(hcm::crypto_with(id, &key_seed(key), &trusted, &speeds, plain));
+                            n.v_set_algorithms(&speeds, plain);
                             w.ids.insert(id, i);
                             AnyNode::Tun(n)
                         }
@@ -201,7 +223,10 @@ fn node_scenario(a: &[&str]) -> String {
                     }
                     w.queue.retain(|x| *x != k);
                     let (src, dst, data) = w.sent[k].clone();
-                    w.deliver(dst, src, data)
+                    match w.route(src, dst) {
+                        Some((d, s)) => w.deliver(d, s, data),
+                        None => "nodg".into(),
+                    }
                 }
                 "J" | "F" | "U" => {
                     let k: usize = num(p[1]);
@@ -265,6 +290,23 @@ fn node_scenario(a: &[&str]) -> String {
                     w.queue.retain(|x| *x != k);
                     "-".into()
                 }
+                "M" => {
+                    // from now on everything node i sends is lost (1) / gets through again (0)
+                    let i: u32 = num(p[1]);
+                    w.muted.retain(|x| *x != i);
+                    if p[2] == "1" {
+                        w.muted.push(i);
+                    }
+                    "-".into()
+                }
+                "K" => {
+                    // node i sits behind a port-forwarding router with public address p
+                    let i: u32 = num(p[1]);
+                    let pa: u32 = num(p[2]);
+                    w.alias.retain(|e| e.0 != i);
+                    w.alias.push((i, pa));
+                    "-".into()
+                }
                 "Z" => {
                     // lose everything in flight that node i sent (i = 0: everything)
                     let i: u32 = num(p[1]);
@@ -277,12 +319,13 @@ fn node_scenario(a: &[&str]) -> String {
                     let mut n = 0;
                     let mut log = vec![];
                     while let Some(k) = w.queue.pop_front() {
-                        let (src, dst, data) = w.sent[k].clone();
-                        if w.nodes.contains_key(&dst) {
-                            let r = w.deliver(dst, src, data);
-                            log.push(format!("n{}>{}", dst, r));
-                        } else {
-                            log.push(format!("n{}>-", dst));
+                        let (src0, dst0, data) = w.sent[k].clone();
+                        match w.route(src0, dst0) {
+                            Some((dst, src)) if w.nodes.contains_key(&dst) => {
+                                let r = w.deliver(dst, src, data);
+                                log.push(format!("n{}>{}", dst, r));
+                            }
+                            _ => log.push(format!("n{}>-", dst0)),
                         }
                         n += 1;
                         if n > 400 {
